@@ -129,7 +129,7 @@ fn run_root<'tcx>(tcx: TyCtxt<'tcx>, did: rustc_span::def_id::DefId, cfg: Option
     let sig = tcx.fn_sig(did).instantiate_identity().skip_norm_wip().skip_binder();
     let max_paths = cfg.map(|c| c.max_paths).unwrap_or(64);
     let opaque = cfg.map(|c| c.opaque.clone()).unwrap_or_default();
-    let mut m = M::new(tcx, Config { opaque, max_steps: 400_000, log });
+    let mut m = M::new(tcx, Config { opaque, max_steps: 400_000, log, release: std::env::var("VEKSCAN_RELEASE").is_ok() });
     let mut paths: Vec<String> = vec![];
     let mut status = "ok".to_string();
     let mut total_steps = 0usize;
